@@ -23,12 +23,14 @@ deriving DecidableEq
 abbrev Obs := Except PyExc Full
 
 /-- `cls.from_dict(data)` -/
+def dictItem (kv : Str × DV) : Option (Str × Str) :=
+  match kv.2 with
+  | .s v => if v.isEmpty then none else some (replaceChar '-' '_' kv.1, v)
+  | .emptyList => none
+
 def fromDict (k : Kind) (data : List (Str × DV)) : Model.Copyright.Para :=
   let tf := typedFields k
-  let items := data.filterMap fun kv =>
-    match kv.2 with
-    | .s v => if v.isEmpty then none else some (replaceChar '-' '_' kv.1, v)
-    | .emptyList => none
+  let items := data.filterMap dictItem
   let known := items.filter fun kv => (tf.map (·.1)).contains kv.1
   let extra := items.filter fun kv => !(tf.map (·.1)).contains kv.1
   { kind := k,
